@@ -16,6 +16,10 @@ CLAIMED = {
    text="Seeded search over a real DatabaseContext whose real changeCache receives real feed events (documents with recent/unused sequences, principals, unused-sequence documents and ranges produced by real writes, CAS retries, rejections and allocator releases). The simulator's feed transport decides arrival order across vbuckets, batching, de-duplication and re-delivery, 1-3 feed workers call DocChanged concurrently, pending thresholds start at 1, and the clock is moved around the pending and skipped timeouts. Invariant at every scheduler step (observed through a recording decorator behind the ChannelCache interface and the set of delivered events): the contiguous high-water mark never moves back and only covers sequences that arrived, were declared unused or are (or were) in the skipped set; nothing is forwarded twice. At quiescence: skipped set == missing sequences below the mark, every delivered latest document change forwarded exactly once, nothing left pending, a changes response does not let a client resume beyond the oldest skipped sequence, and a client that only ever resumed from the positions it was given holds the current revision of every document once skipped sequences have arrived or been abandoned.",
    note="Feed faults model what DCP does (cross-vbucket reordering, de-duplication, re-delivery); per-vbucket order is preserved. Abandonment runs judge fewer clauses (stated in evidence notes).",
    technique="deterministic simulation with a simulator-owned mutation-feed transport; step invariants + quiescent oracle + resuming-client model", design="4/C08"),
+ "C01": dict(level="exploration",
+   text="Seeded search over two real nodes with different cache knobs (default caches vs per-channel cache length from 1, channel-count limits that force the bypass cache, query page sizes from 1) on one bucket, writers on both nodes (create/update/delete/channel moves/conflicting branches), readers racing with them for four requesters (admin, all-channels wildcard, one channel, channel via role) with every handed-out position reused as since, channel subsets, limit and active_only, plus one continuous feed that is never re-issued; feed reordering/dedup/redelivery and CAS-retry faults. Oracle: for every response ordering, no duplicate, limit, active_only, no leak and soundness against a reference model of channel membership built from what reached storage; at quiescence the same requests on node 1, the tiny-cache node 2 and a node started fresh (pure query back-fill) must return identical rows, contain the current revision of every visible changed document, pages of 1 and 2 concatenated must equal the unpaged answer, resuming from each handed-out position must give exactly the remaining rows, and the continuous feed must have delivered every visible document's current state.",
+   note="Access is static per run (admin grants only; dynamic grants are C03/C13). Removal-notice completeness is checked through cache independence (three nodes agree) rather than against the model. Runs in which the recorded resurrection defect made storage regress are reported under that finding and not judged.",
+   technique="deterministic simulation of a 2-3 node cluster on one bucket; differential (cache vs query back-fill) + reference-model oracle", design="4/C01"),
 }
 
 NA = {
